@@ -209,6 +209,25 @@ Fixpoint iter {A} (n : nat) (f : A -> A) (x : A) : A :=
 (* classes generated per repetition when nothing is memoised *)
 Definition k (F : facts) (w : way) (c : config) : nat := List.length (run_events F w c).
 
+(* ... as a function of the node kinds *)
+Definition resolve_count (n : node) : nat := match n_ref n with PShorthand _ => 1 | _ => 0 end.
+Definition sweep_count (n : node) : nat := match n_ref n with PSweep => 1 | _ => 0 end.
+Definition inst_count (F : facts) (n : node) : nat :=
+  resolve_count n + adapter_classes F (n_role n) + node_classes F (n_role n).
+Definition exec_count (F : facts) (traced : bool) (n : node) : nat :=
+  (if traced && trace_resolves F then resolve_count n else 0) + (if inst_in_execute F then inst_count F n else 0).
+Definition construct_count (F : facts) (n : node) : nat :=
+  sweep_count n + (if inst_in_execute F then 0 else inst_count F n).
+Definition k_node (F : facts) (w : way) (traced : bool) (n : node) : nat :=
+  match w with
+  | WReused | WRunSpace => exec_count F traced n
+  | WFresh | WWorker => construct_count F n + exec_count F traced n
+  end.
+
+Definition all_factories : list factory := [FNode; FAdapter; FRename; FDelete; FTemplate; FSlice; FSweep].
+Definition all_memo_b (F : facts) : bool := forallb (memo F) all_factories.
+Definition no_memo_b (F : facts) : bool := negb (existsb (memo F) all_factories).
+
 Definition no_memo (F : facts) : Prop := forall f, memo F f = false.
 Definition all_memo (F : facts) : Prop := forall f, memo F f = true.
 
@@ -273,10 +292,30 @@ Definition case_ok (F : facts) (cc : ccase) : bool :=
   && same_descs (cc_run1 cc) (new_descs (registry s0) (registry (run_once F w c s0)))
   && check_obs F w c 0 s0 (cc_obs cc)
   (* the closed form, evaluated: total = total after start + runs * k *)
-  && (if registers F && negb (existsb (memo F) [FNode; FAdapter; FRename; FDelete; FTemplate; FSlice; FSweep])
+  && (if registers F && no_memo_b F
       then forallb (fun o => Nat.eqb (fold_right (fun cn acc => snd cn + acc) 0 (o_counts o))
                                      (reg_size (registry s0) + o_runs o * k F w c)) (cc_obs cc)
       else true).
 
 Fixpoint bad_idx {A} (ok : A -> bool) (l : list A) (i : nat) : list nat :=
   match l with [] => [] | x :: tl => if ok x then bad_idx ok tl (S i) else i :: bad_idx ok tl (S i) end.
+
+(* ---- witnesses used by the non-vacuity examples of Properties/C18.v ------------------------------------ *)
+Definition io_adapters (r : role) : nat :=
+  match r with RDataSource | RPayloadSource | RDataSink | RPayloadSink => 1 | _ => 0 end.
+Definition ex_cfg : config :=
+  mkConfig [ mkNode PRegistered RDataSource "FloatValueDataSource" "";
+             mkNode PRegistered ROperation "FloatMultiplyOperation" "";
+             mkNode PRegistered RProbe "FloatCollectValueProbe" "k";
+             mkNode (PShorthand FRename) RContext "Rename_k_to_j" "";
+             mkNode PRegistered RDataSink "FloatDataSink" "" ] false.
+Definition ex_base : state := base_state [("DataSource", 12); ("DataOperation", 20)] 40.
+
+Definition memo_all : facts :=
+  mkFacts true true (fun _ => true) true true true io_adapters (fun _ => 1).
+Definition unregistered : facts :=
+  mkFacts false true (fun _ => false) true true true io_adapters (fun _ => 1).
+Definition leaky : facts :=
+  mkFacts true true (fun _ => false) true false false
+          io_adapters (fun _ => 1).
+
